@@ -6,6 +6,10 @@ def main(argv):
     if not argv:
         print('usage: vcheck <property> [--tier quick|thorough] [--replay file]')
         return 3
+    if argv[0] == '--selftest':
+        from symlomond import selftest
+        sys.argv = ['selftest'] + argv[1:]
+        return selftest.main()
     prop = argv[0]
     tier = os.environ.get('VERIF_TIER') or 'quick'
     replay = None
@@ -32,7 +36,27 @@ def main(argv):
     if fn is None:
         print('no check registered for %s' % prop)
         return 3
+    if tier == 'thorough':
+        rc = selftest_once()
+        if rc:
+            print('translator / model self-test failed: no verdict (exit 3)')
+            return 3
     return fn(tier)
+
+
+def selftest_once():
+    """translator + model validation, once per source digest (thorough tier)"""
+    import subprocess
+    from symlomond import instrument
+    verif = os.path.dirname(os.path.dirname(os.path.abspath(__file__)))
+    stamp = os.path.join(verif, '.work', 'selftest-%s.ok' % instrument.source_digest())
+    if os.path.exists(stamp):
+        return 0
+    p = subprocess.run([sys.executable, '-m', 'symlomond.selftest'], cwd=verif, env=dict(os.environ, PYTHONPATH=verif))
+    if p.returncode == 0:
+        os.makedirs(os.path.dirname(stamp), exist_ok=True)
+        open(stamp, 'w').write('ok')
+    return p.returncode
 
 
 if __name__ == '__main__':
